@@ -388,6 +388,31 @@ def sami_secondary_sync(c):
         c.ensure("start_times_stay_non_decreasing", all(c.truth(a.attrs["start"] <= b.attrs["start"]) for a, b in zip(now, now[1:])))
 
 
+def sami_stylesheet_languages(c):
+    """SAMIWriter._recreate_stylesheet + _recreate_style_block (P[n]: language lists incl. codes that are prefixes of one
+    another x which of them a style class of the set already declares x an empty style): in the style sheet that is
+    written EVERY language of the set is declared by exactly one class block - the set's own class where it has one, a
+    class named after the language otherwise - so that each paragraph's class resolves to its language when read back."""
+    import re as _re
+    from pycaption.base import CaptionSet, CaptionList
+    from pycaption.sami import SAMIWriter
+    langs = c.pick("languages", [("en-US",), ("en-US", "en"), ("en", "en-US"), ("en", "fr"), ("fr", "en-GB", "en")])
+    declared = c.pick("classes_of_the_set_declare", ["none", "the first language", "the last language", "all"])
+    with_empty = c.pick("an_empty_style", [False, True])
+    pick = {"none": [], "the first language": [langs[0]], "the last language": [langs[-1]], "all": list(langs)}[declared]
+    styles = {"cc" + l.lower().replace("-", ""): {"lang": l, "color": "white"} for l in pick}
+    if with_empty:
+        styles["empty"] = {}
+    styles["p"] = {"font-size": "12pt"}
+    cs = CaptionSet({l: CaptionList([]) for l in langs}, styles={k: dict(v) for k, v in styles.items()})
+    w = c.new(SAMIWriter, open_span=False, last_time=None)
+    r = c.call(SAMIWriter._recreate_stylesheet, w, cs, compare=False)
+    blocks = _re.findall(r"\n    (\S+) \{\n(.*?)\}\n", r, _re.S)
+    for l in langs:
+        c.ensure(f"language_{langs.index(l) + 1}_is_declared_by_exactly_one_class", len([b for b in blocks if f" lang: {l};" in b[1]]) == 1)
+
+
+
 def run(ctx):
     P = ctx.prove
     P("base.CaptionSet.get_languages", get_languages_order, functions=[CS.get_languages])
@@ -406,6 +431,7 @@ def run(ctx):
     RS.prove_sami_read_skeleton(ctx)          # (every declared language translated once, in order, stored under its own code)
     P("sami.SAMIParser._find_lang", sami_find_lang, functions=[SAMIParser._find_lang])
     from pycaption.sami import SAMIWriter as _SW
+    P("sami.SAMIWriter._recreate_stylesheet/languages", sami_stylesheet_languages, functions=[_SW._recreate_stylesheet, _SW._recreate_style_block], crosscheck=False)
     P("sami.SAMIWriter._recreate_sync[secondary language]", sami_secondary_sync, functions=[_SW._recreate_sync, _SW._find_closest_sync], crosscheck=False)
     # the merge of concurrent captions (legacy / single-position DFXP writers) works language by language: a language
     # without captions is left alone and receives nothing from its neighbours (contract shared with C19)
